@@ -213,6 +213,20 @@ def case_matrix(case):
         clp, r = residual_variable_projection(A.copy(), y.copy())
         for v in check_vp(A, y, np.asarray(clp), np.asarray(r), cond, tag):
             vs.append(dict(v, func="instance", case=dict(case, data=tag, function="variable_projection")))
+        if "*" not in tag and (tag in ("generic", "generic-seeded") or tag.startswith("range")):
+            # data as detectors deliver it - single precision or integer counts: the problem is the one for the same
+            # numbers in double precision
+            for dt in (np.float32, np.int64):
+                yt = (y * (1000.0 if dt is np.int64 else 1.0)).astype(dt)
+                y64 = yt.astype(np.float64)
+                for fname, f, chk in (("variable_projection", residual_variable_projection, check_vp), ("non_negative_least_squares", residual_nnls, check_nnls)):
+                    try:
+                        c_t, r_t = f(A.copy(), yt.copy())
+                    except (RuntimeError, np.linalg.LinAlgError):
+                        continue
+                    for v in chk(A, y64, np.asarray(c_t, dtype=float), np.asarray(r_t, dtype=float), cond, f"{tag}/{dt.__name__}"):
+                        vs.append(dict(v, signature=v["signature"] + "/data-dtype", func="instance",
+                                       case=dict(case, data=tag, function=fname, dtype=dt.__name__)))  # fmt: skip
         for fname, v in preservation(A, y, np.asarray(clp), np.asarray(r), cond, tag):
             vs.append(dict(v, func="instance", case=dict(case, data=tag, function=fname)))
         try:
@@ -237,6 +251,13 @@ def case_instance(case):
     sv = np.linalg.svd(A, compute_uv=False)
     cond = float(sv.max() / sv.min())
     y = dict(data_vectors(A, case, case.get("seed", 0)))[case["data"]]
+    if case.get("dtype"):
+        dt = {"float32": np.float32, "int64": np.int64}[case["dtype"]]
+        yt = (y * (1000.0 if dt is np.int64 else 1.0)).astype(dt)
+        f, chk = (residual_variable_projection, check_vp) if case["function"] == "variable_projection" else (residual_nnls, check_nnls)
+        c_t, r_t = f(A.copy(), yt.copy())
+        vs = chk(A, yt.astype(np.float64), np.asarray(c_t, dtype=float), np.asarray(r_t, dtype=float), cond, case["data"])
+        return core.ok(key=None, outcome=len(vs), violations=[dict(v, signature=v["signature"] + "/data-dtype") for v in vs])
     if case["function"] == "variable_projection":
         clp, r = residual_variable_projection(A.copy(), y.copy())
         vs = check_vp(A, y, np.asarray(clp), np.asarray(r), cond, case["data"])
